@@ -69,3 +69,62 @@ Fixpoint join_sigs (l : list (bytes * Z)) : bytes :=
 Definition json_pack_bytes (t : ptuple) (sigs_nil : bool) : bytes :=
   s_p1 ++ hex_encode (pt_digest t) ++ s_p2 ++ nat_string (pt_seq t) ++ s_p3 ++ pt_report t ++ s_p4 ++
   (match pt_sigs t with [] => if sigs_nil then s_null else [91; 93] | l => 91 :: join_sigs l ++ [93] end) ++ [125].
+
+(* ---- a reader for exactly that shape (Unpack: encoding/json accepts much more — not modelled).  The report is read with
+   JsonReportBytes.json_report_parse_rest, i.e. it must have the shape JSONReportCodec.Encode writes.  Returns the tuple
+   and whether the signature list was JSON null. ---- *)
+From DS Require Import JsonReportBytes.
+Definition is_b64_char (c : Z) : bool := match b64i c with Some _ => true | None => c =? 61 end.
+Definition parse_sig_head (s : bytes) : option ((bytes * Z) * bytes) :=
+  match is_prefix s_s1 s with
+  | Some s1 =>
+      let '(txt, s2) := span is_b64_char s1 in
+      match is_prefix s_s2 s2 with
+      | Some s3 =>
+          let '(ds, s4) := span is_digit s3 in
+          match ds, s4 with
+          | _ :: _, 125 :: tl => match b64_decode txt with Some sg => Some ((sg, digits_val ds), tl) | None => None end
+          | _, _ => None
+          end
+      | None => None
+      end
+  | None => None
+  end.
+Fixpoint parse_sigs (fuel : nat) (s : bytes) : option (list (bytes * Z) * bytes) :=
+  match fuel with
+  | O => None
+  | S n =>
+      match parse_sig_head s with
+      | Some (e, 44 :: rest) => match parse_sigs n rest with Some (es, r) => Some (e :: es, r) | None => None end
+      | Some (e, rest) => Some ([e], rest)
+      | None => None
+      end
+  end.
+Definition json_unpack_bytes (s : bytes) : option (ptuple * bool) :=
+  match is_prefix s_p1 s with None => None | Some r1 =>
+  let '(hx, r2) := span is_hex_char r1 in
+  match is_prefix s_p2 r2 with None => None | Some r3 =>
+  let '(sq, r4) := span is_digit r3 in
+  match sq, is_prefix s_p3 r4 with
+  | _ :: _, Some r5 =>
+      match json_report_parse_rest r5 with
+      | Some (j, r6) =>
+          match is_prefix s_p4 r6, hex_decode hx with
+          | Some r7, Some d =>
+              if negb (length d =? 32)%nat then None else
+              let mk sg := {| pt_digest := d; pt_seq := digits_val sq; pt_report := json_report_bytes j; pt_sigs := sg |} in
+              if bytes_eqb r7 (s_null ++ [125]) then Some (mk [], true)
+              else if bytes_eqb r7 [91; 93; 125] then Some (mk [], false)
+              else match r7 with
+                   | 91 :: r8 => match parse_sigs (S (length r8)) r8 with
+                                 | Some (sgs, [93; 125]) => Some (mk sgs, false)
+                                 | _ => None
+                                 end
+                   | _ => None
+                   end
+          | _, _ => None
+          end
+      | None => None
+      end
+  | _, _ => None
+  end end end.
